@@ -150,6 +150,34 @@ func (g unionReprStringprefixReprBuilderGenerator) EmitNodeBuilderMethods(w io.W
 	// Since we're a representation of scalar kind, and can recurse,
 	//  we ourselves presume this plain construction method must also exist for all our members.
 	// REVIEW: We could make an immut-safe version of this and export it on the NodePrototype too, as `FromString(string)`.
+	// Without a delimiter there is nothing to split on:
+	//  the member is the first one (in declaration order) whose discriminant the value begins with.
+	if g.Type.RepresentationStrategy().(schema.UnionRepresentation_Stringprefix).GetDelim() == "" {
+		doTemplate(`
+			func (_{{ .Type | TypeSymbol }}__ReprPrototype) fromString(w *_{{ .Type | TypeSymbol }}, v string) error {
+				{{- range $i, $member := .Type.Members }}
+				if d := "{{ $member | dot.Type.RepresentationStrategy.GetDiscriminant }}"; len(v) >= len(d) && v[:len(d)] == d {
+					{{- if (eq (dot.AdjCfg.UnionMemlayout dot.Type) "embedAll") }}
+					w.tag = {{ add $i 1 }}
+					if err := (_{{ $member | TypeSymbol }}__ReprPrototype{}).fromString(&w.x{{ add $i 1 }}, v[len(d):]); err != nil {
+						return schema.ErrUnmatchable{TypeName:"{{ dot.PkgName }}.{{ dot.Type.Name }}.Repr", Reason: err}
+					}
+					return nil
+					{{- else if (eq (dot.AdjCfg.UnionMemlayout dot.Type) "interface") }}
+					var n2 _{{ $member | TypeSymbol }}
+					if err := (_{{ $member | TypeSymbol }}__ReprPrototype{}).fromString(&n2, v[len(d):]); err != nil {
+						return schema.ErrUnmatchable{TypeName:"{{ dot.PkgName }}.{{ dot.Type.Name }}.Repr", Reason: err}
+					}
+					w.x = &n2
+					return nil
+					{{- end}}
+				}
+				{{- end}}
+				return schema.ErrUnmatchable{TypeName:"{{ .PkgName }}.{{ .Type.Name }}.Repr"}.Reasonf("expecting a stringprefix union but the value begins with none of the known prefixes")
+			}
+		`, w, g.AdjCfg, g)
+		return
+	}
 	doTemplate(`
 		func (_{{ .Type | TypeSymbol }}__ReprPrototype) fromString(w *_{{ .Type | TypeSymbol }}, v string) error {
 			ss := mixins.SplitN(v, "{{ .Type.RepresentationStrategy.GetDelim }}", 2)
